@@ -8,7 +8,7 @@ import sys
 import time
 import traceback
 
-sys.path.insert(0, "/repo")
+sys.path.insert(0, os.environ.get("VERIF_REPO", "/repo"))
 sys.path.insert(0, os.path.dirname(os.path.dirname(os.path.abspath(__file__))))
 sys.setrecursionlimit(20000)
 logging.disable(logging.CRITICAL)
